@@ -53,6 +53,10 @@ Fixpoint insert_desc (x : tok) (l : list tok) : list tok :=
 
 Definition sort_desc (l : list tok) : list tok := fold_right insert_desc [] l.
 
+(** the number of tokens topK keeps *)
+Definition eff_k (n : nat) (k : Z) : nat :=
+  if (Z.of_nat n <=? k) || (k <=? 0) then n else Z.to_nat k.
+
 Definition topK (ts : list tok) (k : Z) : list tok :=
   if (Z.of_nat (length ts) <=? k) || (k <=? 0) then sort_desc ts
   else firstn (Z.to_nat k) (sort_desc ts).
